@@ -72,21 +72,21 @@ PLANS = {
   'level': 'model_checking', 'steps': [e1x(), e1('jobs', 23)],
   'eval_stats': ['transitions'], 'distinct_key': 'abstract_states', 'state_stats': ['states'], 'transition_stats': ['transitions'],
   'rule': "explicit-state search on the real manager and contexts of every algorithm x family (28 instances x 4 policies): a state is the byte image of manager + K contexts (snapshot/restore by memcpy) plus the reference model; every enabled symbol (flush, valid submits FIRST/UPDATE/LAST/ENTIRE with 7 lengths on fresh/idle/completed contexts, 10 kinds of rejected submit) is a deviation from the driving policy; bounds d=0,1,2.. iterated; invariants I1-I6 evaluated after every transition; distinct = abstract (occupancy, status multiset) states reached",
-  'bound': {'quick': 'deviations d<=2 for families with <=4 lanes, d<=1 otherwise', 'thorough': 'd<=2 for every instance, 14 segment lengths (instead of 8) for <=4 lanes, rejections also on the youngest in-flight context'},
+  'bound': {'quick': 'deviations d<=2 for families with <=4 lanes, d<=1 otherwise', 'thorough': 'd<=2 for every instance up to 16 lanes (d<=1 for the 32-lane MD5 AVX-512 manager), 14 segment lengths (instead of 8) for <=4 lanes, rejections also on the youngest in-flight context'},
   'deadline': {'quick': 200, 'thorough': 2700}, 'assumptions': A_E1,
  },
  'C01': {
   'level': 'model_checking', 'steps': [e1x(extra_q=['--d4=1']), e1('seg', 112), e1('jobs', 23)],
   'eval_stats': ['transitions'], 'distinct_key': None, 'state_stats': ['states'], 'transition_stats': ['transitions'],
   'rule': "same state space as C06 (digest of every context handed back complete compared with the standard hash of everything submitted since FIRST, incl. context reuse and mid-stream restart) plus, per family, all segmentations (l1,l2) in [0,2B+1]^2 as FIRST/LAST, FIRST/UPDATE/LAST(0) and ENTIRE under four lane occupancies (alone, 1, lanes-2, lanes-1 long background jobs in flight); digests compared with own FIPS 180-4 / RFC 1321 / GB/T 32905 references",
-  'bound': {'quick': 'explore d<=1; seg (l1,l2) in [0,2B+1]^2', 'thorough': 'explore d<=2 everywhere with 14 segment lengths for <=4 lanes; seg additionally a third piece'},
+  'bound': {'quick': 'explore d<=1; seg (l1,l2) in [0,2B+1]^2', 'thorough': 'explore d<=2 up to 16 lanes (d<=1 at 32 lanes) with 14 segment lengths for <=4 lanes; seg additionally a third piece'},
   'deadline': {'quick': 200, 'thorough': 2700}, 'assumptions': A_E1,
  },
  'C11': {
   'level': 'model_checking', 'steps': [e1x(), e1('explore', 112, ['--entry=public'])],
   'eval_stats': ['transitions'], 'distinct_key': 'abstract_states', 'state_stats': ['states'], 'transition_stats': ['transitions'],
   'rule': "same state space as C06 with the rejected submits as ordinary alphabet symbols, so that every explored manager state receives every kind of rejection followed by every continuation in the budget; per rejection: returned pointer, error code (precedence flags > processing > completed), byte image of manager and all other contexts unchanged, rejected context unchanged except its error field; explored twice: on the family symbols and through the public isal_*_ctx_mgr_* wrappers re-pointed to each family, where every valid call must return 0 and every rejection the mapped code",
-  'bound': {'quick': 'family level d<=2 (<=4 lanes) / d<=1, public level d<=1', 'thorough': 'family level d<=2 everywhere with 14 segment lengths for <=4 lanes and rejections on two in-flight contexts, public level d<=1'},
+  'bound': {'quick': 'family level d<=2 (<=4 lanes) / d<=1, public level d<=1', 'thorough': 'family level d<=2 up to 16 lanes (d<=1 at 32 lanes) with 14 segment lengths for <=4 lanes and rejections on two in-flight contexts, public level d<=1'},
   'deadline': {'quick': 200, 'thorough': 2700}, 'assumptions': A_E1,
  },
  'C15': {
